@@ -7,6 +7,7 @@ pub mod layout;
 pub mod immix;
 pub mod meta;
 pub mod misc;
+pub mod sched;
 
 /// Dispatch one line. Returns None for an unknown component.
 pub fn dispatch(tokens: &[&str]) -> Option<String> {
@@ -17,6 +18,7 @@ pub fn dispatch(tokens: &[&str]) -> Option<String> {
         .or_else(|| misc::dispatch(tokens))
         .or_else(|| conc::dispatch(tokens))
         .or_else(|| immix::dispatch(tokens))
+        .or_else(|| sched::dispatch(tokens))
 }
 
 /// `cfg <key> …` lines hx_unit does not handle itself are offered to the packages
